@@ -1,13 +1,13 @@
 /-
 C12 — PCM transcoding maps every source channel to the same-numbered output channel.
-(theorems are added below as they are proved; see obligations.json)
 -/
 import Smpl.Model.Transcode
 
 namespace Smpl.Props.C12
 open Smpl.Transcode
 
-/-- `resize_buffer` keeps a whole number of frames and drops fewer than one frame. -/
+/-- `resize_buffer` keeps a whole number of frames and drops fewer than one frame:
+trailing bytes that do not form a whole frame never reach the output. -/
 theorem C12_tail (frame : Nat) (hf : 0 < frame) (buf : List Byte) :
     (wholeFrames frame buf).length % frame = 0 ∧
     (wholeFrames frame buf).length ≤ buf.length ∧
@@ -19,5 +19,140 @@ theorem C12_tail (frame : Nat) (hf : 0 < frame) (buf : List Byte) :
   rw [Nat.mul_comm] at h3
   simp only [List.length_take, Nat.min_eq_left h1]
   refine ⟨Nat.mul_mod_left _ _, h1, by omega⟩
+
+/-- what the byte-order steps must do to one channel: reverse each sample iff source and
+destination byte orders differ (the host byte order must not matter). -/
+def destFlags (dest : Enc) (srcs : List Src) : List Bool :=
+  srcs.flatMap fun s => List.replicate s.enc.chans (s.enc.big != dest.big)
+
+def applyFlags (chs : List (List Sample)) (flags : List Bool) : List (List Sample) :=
+  (chs.zip flags).map fun (ch, f) => if f then ch.map List.reverse else ch
+
+private theorem applyFlags_allTrue (chs : List (List Sample)) (flags : List Bool)
+    (hl : chs.length = flags.length) (h : ∀ f ∈ flags, f = true) :
+    applyFlags chs flags = chs.map (·.map List.reverse) := by
+  induction chs generalizing flags with
+  | nil => simp [applyFlags]
+  | cons c cs ih =>
+    cases flags with
+    | nil => simp at hl
+    | cons f fs =>
+      have hf : f = true := h f (List.mem_cons_self ..)
+      have := ih fs (by simpa using hl) (fun x hx => h x (List.mem_cons_of_mem _ hx))
+      simp only [applyFlags] at this ⊢
+      simp [hf, this]
+
+private theorem applyFlags_allFalse (chs : List (List Sample)) (flags : List Bool)
+    (hl : chs.length = flags.length) (h : ∀ f ∈ flags, f = false) :
+    applyFlags chs flags = chs := by
+  induction chs generalizing flags with
+  | nil => simp [applyFlags]
+  | cons c cs ih =>
+    cases flags with
+    | nil => simp at hl
+    | cons f fs =>
+      have hf : f = false := h f (List.mem_cons_self ..)
+      have := ih fs (by simpa using hl) (fun x hx => h x (List.mem_cons_of_mem _ hx))
+      simp only [applyFlags] at this ⊢
+      simp [hf, this]
+
+private theorem revrev (ch : List Sample) : (ch.map List.reverse).map List.reverse = ch := by
+  induction ch with
+  | nil => rfl
+  | cons x xs ih => simp [ih]
+
+private theorem applyFlags_then_all (chs : List (List Sample)) (flags : List Bool) :
+    (applyFlags chs flags).map (·.map List.reverse) = applyFlags chs (flags.map (!·)) := by
+  induction chs generalizing flags with
+  | nil => simp [applyFlags]
+  | cons c cs ih =>
+    cases flags with
+    | nil => simp [applyFlags]
+    | cons f fs =>
+      have := ih fs
+      simp only [applyFlags] at this ⊢
+      cases f
+      · simp [this]
+      · simp only [List.map_cons, List.zip_cons_cons, if_true, Bool.not_true, Bool.false_eq_true,
+          if_false, this]
+        congr 1
+        exact revrev c
+
+/-- **Byte-order routing (the content of the D8 repair).** Whatever the host byte order, and whichever
+of the three process lists `make_transcoder` builds (none / swap all / swap some), channel `c` of
+a block has each sample reversed exactly when its *source stream's* byte order differs from the
+destination's — one flag per decoded channel, in source-channel order. -/
+theorem C12_swaps_host_independent (host : Bool) (dest : Enc) (srcs : List Src)
+    (chs : List (List Sample)) (hl : chs.length = (destFlags dest srcs).length) :
+    applySwaps host dest srcs chs = applyFlags chs (destFlags dest srcs) := by
+  have hlen : chs.length = (swapFlags host srcs).length := by
+    rw [hl]; simp [destFlags, swapFlags, List.length_flatMap]
+  -- the input step always equals per-channel application of `swapFlags host`
+  have hin : (if (srcs.map fun s => s.enc.big != host).any id then
+        if (srcs.map fun s => s.enc.big != host).all id then chs.map (·.map List.reverse)
+        else (chs.zip (swapFlags host srcs)).map fun (ch, f) => if f then ch.map List.reverse else ch
+      else chs) = applyFlags chs (swapFlags host srcs) := by
+    by_cases hany : (srcs.map fun s => s.enc.big != host).any id = true
+    · by_cases hall : (srcs.map fun s => s.enc.big != host).all id = true
+      · simp only [hany, hall, if_true]
+        symm
+        apply applyFlags_allTrue chs _ hlen
+        intro f hf
+        simp only [swapFlags, List.mem_flatMap, List.mem_replicate] at hf
+        obtain ⟨s, hs, _, rfl⟩ := hf
+        simp only [List.all_map, List.all_eq_true, Function.comp] at hall
+        exact hall s hs
+      · simp only [hany, hall, if_true]; rfl
+    · simp only [hany]
+      symm
+      apply applyFlags_allFalse chs _ hlen
+      intro f hf
+      simp only [swapFlags, List.mem_flatMap, List.mem_replicate] at hf
+      obtain ⟨s, hs, _, rfl⟩ := hf
+      simp only [List.any_map, List.any_eq_true, Function.comp, not_exists, not_and] at hany
+      have := hany s hs
+      simpa using this
+  unfold applySwaps
+  simp only [hin]
+  have hflags : ∀ (q : Bool), (if q then (swapFlags host srcs).map (!·) else swapFlags host srcs)
+      = srcs.flatMap fun s => List.replicate s.enc.chans ((s.enc.big != host) != q) := by
+    intro q
+    cases q
+    · simp [swapFlags]
+    · simp only [swapFlags, if_true, List.map_flatMap, List.map_replicate]
+      congr 1; funext s; congr 1; cases s.enc.big <;> cases host <;> rfl
+  have hd : destFlags dest srcs
+      = srcs.flatMap fun s => List.replicate s.enc.chans ((s.enc.big != host) != (dest.big != host)) := by
+    unfold destFlags
+    congr 1; funext s; congr 1
+    cases s.enc.big <;> cases dest.big <;> cases host <;> rfl
+  by_cases hq : (dest.big != host) = true
+  · simp only [hq, if_true]
+    rw [applyFlags_then_all, hd, hq, ← hflags true]; simp
+  · have hq' : (dest.big != host) = false := by simpa using hq
+    simp only [hq', Bool.false_eq_true, if_false]
+    rw [hd, hq', ← hflags false]; simp
+
+/-- the number of channel flags is the total number of decoded channels. -/
+theorem C12_flag_count (dest : Enc) (srcs : List Src) :
+    (destFlags dest srcs).length = (srcs.map (·.enc.chans)).sum := by
+  simp [destFlags, List.length_flatMap]
+
+/-- `make_transcoder` rejects an empty stream list and a destination whose channel count is not the
+sum of the sources' channel counts: an accepted transcoder has one output channel per source channel. -/
+theorem C12_channels (host : Bool) (B : Nat) (dest : Enc) (srcs : List Src) (r)
+    (h : transcode host B dest srcs = .ok r) :
+    srcs ≠ [] ∧ (srcs.map (·.enc.chans)).foldl (· + ·) 0 = dest.nch := by
+  unfold transcode at h
+  by_cases h1 : srcs.isEmpty = true
+  · simp [h1] at h
+  · simp only [h1] at h
+    by_cases h2 : ((srcs.map (·.enc.chans)).foldl (· + ·) 0 != dest.nch) = true
+    · simp [h2] at h
+    · refine ⟨by intro e; simp [e] at h1, by simpa using h2⟩
+
+-- non-vacuity: a mixed-endian pair with an interleaved stream
+example : applySwaps false ⟨false, 2, 3, true⟩ [⟨⟨false, 2, 2, true⟩, []⟩, ⟨⟨true, 2, 1, true⟩, []⟩]
+    [[[1, 2]], [[3, 4]], [[5, 6]]] = [[[1, 2]], [[3, 4]], [[6, 5]]] := by decide
 
 end Smpl.Props.C12
